@@ -64,13 +64,16 @@ func VerifC08ReadOnly() {
 	x1 := verifStrN("x1", 1, vDigits())
 	x2 := verifStrN("x2", 1, vDigits())
 	x3 := verifStrN("x3", 1, vDigits())
-	form := verifChoice("form", 2)
+	form := verifChoice("form", 3)
 	idx := 0
 	text := ""
-	if form == 0 {
+	switch form {
+	case 0:
 		text = "(" + e + ") as $x | ."
-	} else {
+	case 1:
 		text = "select([" + e + "] | length >= 0)" // pass-through filter whose predicate evaluates E
+	default:
+		text = "(" + e + "), ." // E evaluated at the top level, next to the document itself
 	}
 	doc := c08Doc(x0, x1, x2, x3)
 	exp := vParse(text)
@@ -82,7 +85,7 @@ func VerifC08ReadOnly() {
 	before := vDumpFull(doc)
 	res, err := vEval(exp, doc)
 	after := vDumpFull(doc)
-	label := "form=" + []string{"as-var", "select"}[form] + " expr=" + e
+	label := "form=" + []string{"as-var", "select", "union-with-document"}[form] + " expr=" + e
 	if err != nil {
 		// an error is an answer too; the input must still be untouched
 		verifCover("C08/error")
@@ -92,8 +95,13 @@ func VerifC08ReadOnly() {
 	verifObserve("after", after)
 	verifAssert(verifEqStr(before, after), "C08/input-unchanged "+label)
 	// `E as $x | .` yields the input once per result of E; select() yields it once: every result is the input node itself
-	for _, r := range vNodes(res) {
-		verifAssert(r == doc, "C08/returns-the-input "+label)
+	if form == 2 {
+		// (E), . : the last result is the document
+		verifAssert(res.Len() >= 1 && res.Back().Value.(*CandidateNode) == doc, "C08/returns-the-input "+label)
+	} else {
+		for _, r := range vNodes(res) {
+			verifAssert(r == doc, "C08/returns-the-input "+label)
+		}
 	}
 	if form == 1 {
 		verifAssert(res.Len() == 1, "C08/select-passes-input-once "+label)
